@@ -251,7 +251,20 @@ def check_encoder(ctx, f, ref_len_octets, pts_wl):
             segs = final[1]
             want_id = ('emit', WT, (('field', TAG, 'class'), ('ctor', 'TagStructure::Primitive' if prim else 'TagStructure::Constructed', ()), ('field', TAG, 'id')))
             content = segs[-1] if len(segs) >= 3 else None
-            if len(segs) < 3 or segs[0] != ('pre', BUFP):
+            src = ('variant', PAY, 'PL::P' if prim else 'PL::C', 0)
+            no_content = len(segs) >= 3 and segs[-1][0] not in ('bytes', 'many') and any(says_empty(sem.strip_site(a), t, (), lambda x: x == src) for a, t in o.st.pc)
+            if no_content:
+                # a path on which the payload / the list of children is known to be empty may leave the content out: L = 0 there
+                for sg in segs[2:]:
+                    if sg[0] == 'emit' and sg[1] == WLN and len(sg[2]) == 1 and rope.lin_of(sg[2][0]) == ({}, 0):
+                        items.append(('wl',))
+                    elif sg[0] == 'byte' and sg[1][0] == 'lit' and isinstance(sg[1][1], int) and not isinstance(sg[1][1], bool):
+                        items.append(('const', sg[1][1] & 0xff))
+                    else:
+                        why = 'on a path with empty content there is %s after the identifier' % absx.fmt(sg)[:80]
+                if segs[0] != ('pre', BUFP) or segs[1] != want_id:
+                    why = 'the buffer does not begin with what it held before, followed by the identifier octets of (tag.class, %s, tag.id)' % ('Primitive' if prim else 'Constructed')
+            elif len(segs) < 3 or segs[0] != ('pre', BUFP):
                 why = 'the buffer does not begin with what it held before, followed by identifier, length and content'
             elif segs[1] != want_id:
                 why = 'after the earlier content comes %s, not the identifier octets of (tag.class, %s, tag.id)' % (absx.fmt(segs[1])[:80], 'Primitive' if prim else 'Constructed')
@@ -280,7 +293,9 @@ def check_encoder(ctx, f, ref_len_octets, pts_wl):
         if why is not None:
             continue
         conds = []
-        for a, t in o.st.pc:
+        if latom is None:
+            conds.append((('bin', 'Eq', LVAR, ('lit', 0)), True))
+        for a, t in (o.st.pc if latom is not None else ()):
             a2 = length_in_var(sem.strip_site(a), latom)
             if sem.has(a2, lambda x: x == LVAR) or (a2 != sem.strip_site(a) and sem.has(a2, lambda x: x[0] == 'unk')):
                 conds.append((a2, t))
